@@ -141,11 +141,11 @@ def _cell_name(text):
         return "type7"
     if re.fullmatch(r"[0-9a-fA-F]+", text):
         return "hex"
-    if text.startswith("$1$"):
+    if re.fullmatch(r"\$1\$[^$\s]+\$\S+", text):
         return "md5"
-    if text.startswith("$6$"):
+    if text.startswith("$6$") and len(text) > 3:
         return "sha512"
-    if text.startswith("$9$"):
+    if text.startswith("$9$") and len(text) > 3:
         return "j9"
     return "text"
 
